@@ -120,54 +120,88 @@ def allDenoms (s : Settlement) : List Denom :=
     ++ s.transfers.flatMap (fun t => denoms t.inputs.total ++ denoms t.outputs.total)
     ++ denoms s.feeInputs.total
 
+/-! The clauses of C01 for a `Settlement` `s` returned for the request `(asks, bids, ratio)`; each is
+`true` when the clause holds. -/
+
+/-- every requested order is filled exactly once (fully or partially), nothing else is -/
+def clFilledIds (orig : List Order) (fos : List FilledOrder) : Bool :=
+  decide (fos.length = orig.length) && orig.all (fun o => decide ((fos.filter (·.order.id = o.id)).length = 1))
+
+/-- a partial order is left iff one is reported as partially filled -/
+def clPartialPair (s : Settlement) : Bool := s.partialLeft.isSome == s.partialFilled.isSome
+
+/-- the partially filled order is the last of its list -/
+def clPartialLast (asks bids : List Order) (s : Settlement) : Bool :=
+  match s.partialLeft, s.partialFilled with
+  | some l, some pf =>
+    match (asks ++ bids).find? (·.id = l.id) with
+    | none => false
+    | some o => decide (pf.order.id = l.id) && (decide (asks.getLast? = some o) || decide (bids.getLast? = some o))
+  | _, _ => true
+
+/-- the split of the partially filled order keeps the proportions (`splitViolation`) -/
+def partialSplitViolation (asks bids : List Order) (s : Settlement) : Option String :=
+  match s.partialLeft, s.partialFilled with
+  | some l, some pf =>
+    match (asks ++ bids).find? (·.id = l.id) with
+    | none => none
+    | some o => (splitViolation o pf.order.assets pf.order l).map ("partial_" ++ ·)
+  | _, _ => none
+
+/-- fully filled orders are the requested orders, unchanged -/
+def clFullUnchanged (orig : List Order) (s : Settlement) : Bool :=
+  s.fullyFilled.all fun f =>
+    match orig.find? (·.id = f.order.id) with
+    | none => false
+    | some o => decide (f.order = o)
+
+/-- buyers pay exactly their price -/
+def clBidPaysExact (fos : List FilledOrder) : Bool :=
+  fos.all fun f => f.order.isAsk || decide (f.actualPrice = f.order.price)
+/-- sellers are paid at least their price -/
+def clAskPaid (fos : List FilledOrder) : Bool :=
+  fos.all fun f => !f.order.isAsk || decide (f.order.price ≤ f.actualPrice)
+/-- buyers pay their own settlement fees -/
+def clBidFees (fos : List FilledOrder) : Bool :=
+  fos.all fun f => f.order.isAsk || coinsEq f.actualFees f.order.fees
+/-- sellers pay flat + ⌈ratio⌉ -/
+def clAskFees (ratio : Option Ratio) (fos : List FilledOrder) : Bool :=
+  fos.all fun f => !f.order.isAsk || askFeesOk ratio f
+def clBalanced (s : Settlement) : Bool := s.transfers.all (·.balanced)
+def clPositive (s : Settlement) : Bool := s.transfers.all (·.positive)
+/-- per account and denom the net of the transfers is what the account's orders say -/
+def clAccountDeltas (s : Settlement) : Bool :=
+  (allAddrs s).all fun x => (allDenoms s).all fun d =>
+    decide (transfersNet s.transfers x d = expectedDelta s.filled x d)
+/-- per account and denom the fee inputs are the fees of the account's orders -/
+def clFeeInputs (s : Settlement) : Bool :=
+  (allAddrs s).all fun x => (allDenoms s).all fun d =>
+    decide (s.feeInputs.amountFor x d = expectedFees s.filled x d)
+def clAssetsConserved (fos : List FilledOrder) : Bool :=
+  decide (((fos.filter (·.order.isAsk)).map (·.order.assets)).sum = ((fos.filter (!·.order.isAsk)).map (·.order.assets)).sum)
+def clPriceConserved (fos : List FilledOrder) : Bool :=
+  decide (((fos.filter (·.order.isAsk)).map (·.actualPrice)).sum = ((fos.filter (!·.order.isAsk)).map (·.actualPrice)).sum)
+
 /-- The first clause of C01 that the settlement `s` breaks for the request `(asks, bids, ratio)`,
 or `none`. -/
 def settlementViolation (asks bids : List Order) (ratio : Option Ratio) (s : Settlement) : Option String :=
-  let orig := asks ++ bids
-  let fos := s.filled
-  let findOrig := fun (id : Nat) => orig.find? (·.id = id)
-  -- every requested order is filled exactly once (fully or partially), nothing else is
-  if decide (fos.length ≠ orig.length) || orig.any (fun o => decide ((fos.filter (·.order.id = o.id)).length ≠ 1)) then
-    some "filled_ids"
-  -- at most one partial order: the last of its list, allows partial, split keeps proportions
-  else if s.partialLeft.isSome ≠ s.partialFilled.isSome then some "partial_pair"
-  else if (match s.partialLeft, s.partialFilled with
-      | some l, some pf =>
-        match findOrig l.id with
-        | none => true
-        | some o => decide (pf.order.id ≠ l.id) ||
-            decide (asks.getLast? ≠ some o ∧ bids.getLast? ≠ some o)
-      | _, _ => false) then some "partial_not_last"
-  else match (match s.partialLeft, s.partialFilled with
-      | some l, some pf =>
-        match findOrig l.id with
-        | none => none
-        | some o => (splitViolation o pf.order.assets pf.order l).map ("partial_" ++ ·)
-      | _, _ => none) with
+  if !clFilledIds (asks ++ bids) s.filled then some "filled_ids"
+  else if !clPartialPair s then some "partial_pair"
+  else if !clPartialLast asks bids s then some "partial_not_last"
+  else match partialSplitViolation asks bids s with
   | some c => some c
   | none =>
-  -- fully filled orders are the requested orders, unchanged
-  if s.fullyFilled.any (fun f => match findOrig f.order.id with
-      | none => true
-      | some o => decide (f.order ≠ o)) then some "full_order_changed"
-  -- price: buyers pay exactly, sellers get at least
-  else if fos.any (fun f => !f.order.isAsk && decide (f.actualPrice ≠ f.order.price)) then some "bid_pays_exact_price"
-  else if fos.any (fun f => f.order.isAsk && decide (f.actualPrice < f.order.price)) then some "ask_paid_at_least_price"
-  -- fees: buyers their own, sellers flat + ⌈ratio⌉
-  else if fos.any (fun f => !f.order.isAsk && !coinsEq f.actualFees f.order.fees) then some "bid_fees"
-  else if fos.any (fun f => f.order.isAsk && !askFeesOk ratio f) then some "ask_fees"
-  -- transfers: each balanced and positive; per account and denom the net is what its orders say
-  else if s.transfers.any (fun t => !t.balanced) then some "transfer_balanced"
-  else if s.transfers.any (fun t => !t.positive) then some "transfer_positive"
-  else if (allAddrs s).any (fun x => (allDenoms s).any fun d =>
-      decide (transfersNet s.transfers x d ≠ expectedDelta fos x d)) then some "account_deltas"
-  else if (allAddrs s).any (fun x => (allDenoms s).any fun d =>
-      decide (s.feeInputs.amountFor x d ≠ expectedFees fos x d)) then some "fee_inputs"
-  -- conservation
-  else if ((fos.filter (·.order.isAsk)).map (·.order.assets)).sum ≠ ((fos.filter (!·.order.isAsk)).map (·.order.assets)).sum then
-    some "assets_conserved"
-  else if ((fos.filter (·.order.isAsk)).map (·.actualPrice)).sum ≠ ((fos.filter (!·.order.isAsk)).map (·.actualPrice)).sum then
-    some "price_conserved"
+  if !clFullUnchanged (asks ++ bids) s then some "full_order_changed"
+  else if !clBidPaysExact s.filled then some "bid_pays_exact_price"
+  else if !clAskPaid s.filled then some "ask_paid_at_least_price"
+  else if !clBidFees s.filled then some "bid_fees"
+  else if !clAskFees ratio s.filled then some "ask_fees"
+  else if !clBalanced s then some "transfer_balanced"
+  else if !clPositive s then some "transfer_positive"
+  else if !clAccountDeltas s then some "account_deltas"
+  else if !clFeeInputs s then some "fee_inputs"
+  else if !clAssetsConserved s.filled then some "assets_conserved"
+  else if !clPriceConserved s.filled then some "price_conserved"
   else none
 
 end PvModel.Settle
